@@ -277,7 +277,27 @@ def fam_future(rnd, full):
         head = LAY[lay].format(", ".join(sel), ",\n    ".join(sel), ",".join(sel))
         yield C("remove-future-imports", f"future-import-list/{kept}", lay, head + "\ndef f(a: int = 3) -> str:\n    return 'v' + str(a / 2)\nprint(f(), f.__annotations__)\n", f"future_{len(sel)}_{kept}")
 
-FAMS = [fam_future, fam_import_blocks, fam_startswith, fam_isinstance, fam_invert, fam_generator, fam_misc, fam_nested, fam_sql_pieces, fam_file_alias, fam_imports]
+def fam_removed_statement(rnd, full):
+    """codemods that delete a whole statement: the statement as the only one of its block, with and without comments / blank lines around it (the block must stay a block),
+    and `global` in every kind of scope (only the module-level one is redundant)"""
+    deco = {"bare": ("", ""), "comment-above": ("{i}# why this is here\n", ""), "trailing-comment": ("", "  # left over"), "blank-line-above": ("\n", ""), "comment-above+trailing": ("{i}# note\n", "  # dbg")}
+    for dn, (above, trail) in deco.items():
+        a8 = above.format(i=" " * 8); a4 = above.format(i=" " * 4)
+        yield C("remove-debug-breakpoint", "sole-statement-of-block/if", dn, f"def f(x):\n    if x:\n{a8}        breakpoint(){trail}\n    return x\nprint(f(0))\n", "sole_if")
+        yield C("remove-debug-breakpoint", "sole-statement-of-block/try", dn, f"import pdb\ndef f(x):\n    try:\n{a8}        pdb.set_trace(){trail}\n    except ValueError:\n        return -1\n    return x\nprint(len(f.__name__))\n", "sole_try")
+        yield C("remove-debug-breakpoint", "sole-statement-of-block/else", dn, f"def f(x):\n    for _ in x:\n        x = x[1:]\n    else:\n{a8}        breakpoint(){trail}\n    return x\nprint(f.__name__)\n", "sole_else")
+        yield C("remove-module-global", "sole-statement-of-block/if", dn, f"if True:\n{a4}    global flag{trail}\nflag = 3\nprint(flag)\n", "sole_global_if")
+    G = {"module-level": "global counter\ncounter = 1\ndef f():\n    return counter + 1\nprint(f())\n",
+         "class-body": "class Config:\n    global DEFAULT\n    DEFAULT = 30\n    other = 1\ndef f():\n    return DEFAULT + Config.other\nprint(f())\n",
+         "nested-class-body": "class A:\n    class B:\n        global DEEP\n        DEEP = 5\nprint(DEEP)\n",
+         "function": "def setup():\n    global registry\n    registry = {}\nsetup()\nprint(registry)\n",
+         "class-in-function": "def mk():\n    class K:\n        global made\n        made = 2\n    return K\nmk()\nprint(made)\n",
+         "method": "class S:\n    def set(self):\n        global shared\n        shared = 9\nS().set()\nprint(shared)\n",
+         "class-body+module-level": "global top\ntop = 1\nclass C:\n    global inner\n    inner = top + 1\nprint(top, inner)\n"}
+    for gn, src in G.items():
+        yield C("remove-module-global", "global-statement-scope/" + gn, "plain", src, "global_" + gn)
+
+FAMS = [fam_future, fam_removed_statement, fam_import_blocks, fam_startswith, fam_isinstance, fam_invert, fam_generator, fam_misc, fam_nested, fam_sql_pieces, fam_file_alias, fam_imports]
 
 def all_cases(rnd, full):
     return [c for f in FAMS for c in f(rnd, full)]
